@@ -68,13 +68,15 @@ def run(ctx):
                 case["transform"] = f
             elif kind == "rename":
                 classes = ds["classes"]
-                mode = rng.choice(["shuffle", "str", "float", "negate"])
+                mode = rng.choice(["shuffle", "str", "float", "negate", "gapped0"])
                 if mode == "shuffle":
                     tgt = rng.sample(range(100, 200), len(classes))
                 elif mode == "str":
                     tgt = ["c%03d" % (997 * (k + 3) % 1000) for k in range(len(classes))]
                 elif mode == "float":
                     tgt = [float(k) * 0.5 - 1.25 for k in rng.sample(range(20), len(classes))]
+                elif mode == "gapped0":
+                    tgt = [0, 3, 4, 9, 17][:len(classes)]
                 else:
                     tgt = [-cl - 1 for cl in classes]
                 ren = dict(zip(classes, tgt))
